@@ -350,3 +350,26 @@ fn num_display_ints() {
     assert!(neg == (exact < 0));
     assert!((if neg { -acc } else { acc }) == exact);
 }
+
+/// C14: the bytewise (lexicographic) order of the 8 big-endian bytes written into a comparable key is the order of the
+/// u64 they encode (the step from "image is monotone" to "key bytes sort like the numbers")
+#[kani::proof]
+#[kani::unwind(10)]
+fn keybytes_be_order() {
+    let a: u64 = kani::any();
+    let b: u64 = kani::any();
+    let x = a.to_be_bytes();
+    let y = b.to_be_bytes();
+    // explicit lexicographic comparison (what comparing keys byte by byte does)
+    let mut i = 0;
+    let mut ord = std::cmp::Ordering::Equal;
+    while i < 8 {
+        if x[i] != y[i] {
+            ord = if x[i] < y[i] { std::cmp::Ordering::Less } else { std::cmp::Ordering::Greater };
+            break;
+        }
+        i += 1;
+    }
+    assert!(ord == a.cmp(&b));
+    assert!(x.cmp(&y) == a.cmp(&b));
+}
